@@ -388,8 +388,18 @@ func canonPath(info *types.Info, e ast.Expr) string {
 	e = unparen(e)
 	var fields []string
 	cur := e
+	hops := 0
 	for {
 		switch t := cur.(type) {
+		case *ast.Ident:
+			// a local defined exactly once as a copy of an access path stands for that path
+			if src := localAliasOf(info, t); src != nil && hops < 4 {
+				hops++
+				if len(fields) == 0 {
+					return canonPath(info, src)
+				}
+				return canonPath(info, src) + "." + strings.Join(fields, ".")
+			}
 		case *ast.ParenExpr:
 			cur = t.X
 			continue
@@ -401,7 +411,11 @@ func canonPath(info *types.Info, e ast.Expr) string {
 				fields = append([]string{t.Sel.Name}, fields...)
 				// does t.X have a pointer-to-named or named struct type that anchors the path?
 				if name := anchorType(info.TypeOf(t.X)); name != "" {
-					if _, isPtr := info.TypeOf(t.X).(*types.Pointer); isPtr || isIdent(t.X) {
+					aliased := false
+					if id, ok := unparen(t.X).(*ast.Ident); ok && localAliasOf(info, id) != nil {
+						aliased = true
+					}
+					if _, isPtr := info.TypeOf(t.X).(*types.Pointer); (isPtr || isIdent(t.X)) && !aliased {
 						return name + "." + strings.Join(fields, ".")
 					}
 				}
@@ -780,4 +794,120 @@ func parseSeqs(t string) []Seq {
 		text(t[start:])
 	}
 	return out
+}
+
+// ---- single-definition local aliases: `next := w.vx.cursorNext`, `closed := vx.closed`
+
+var aliasTables = map[*types.Info]map[types.Object]ast.Expr{}
+
+// aliasSources is filled by installAliasTables (main) for every loaded package.
+func buildAliasTable(info *types.Info, files []*ast.File) {
+	defs := map[types.Object][]ast.Expr{}
+	bad := map[types.Object]bool{}
+	note := func(l ast.Expr, r ast.Expr, define bool) {
+		id, ok := l.(*ast.Ident)
+		if !ok {
+			return
+		}
+		o := info.ObjectOf(id)
+		v, ok := o.(*types.Var)
+		if !ok || v.IsField() || v.Parent() == nil || v.Parent() == v.Pkg().Scope() {
+			return
+		}
+		if r == nil || !isAccessPath(info, r) {
+			bad[o] = true
+			return
+		}
+		defs[o] = append(defs[o], r)
+	}
+	for _, f := range files {
+		ast.Inspect(f, func(n ast.Node) bool {
+			switch s := n.(type) {
+			case *ast.AssignStmt:
+				if len(s.Lhs) == len(s.Rhs) && (s.Tok == token.DEFINE || s.Tok == token.ASSIGN) {
+					for i := range s.Lhs {
+						note(s.Lhs[i], s.Rhs[i], s.Tok == token.DEFINE)
+					}
+				} else {
+					for _, l := range s.Lhs {
+						note(l, nil, false)
+					}
+				}
+			case *ast.IncDecStmt:
+				note(s.X, nil, false)
+			case *ast.RangeStmt:
+				if s.Key != nil {
+					note(s.Key, nil, false)
+				}
+				if s.Value != nil {
+					note(s.Value, nil, false)
+				}
+			case *ast.ValueSpec:
+				for i, nm := range s.Names {
+					if i < len(s.Values) {
+						note(nm, s.Values[i], true)
+					} else {
+						note(nm, nil, true)
+					}
+				}
+			case *ast.UnaryExpr:
+				if s.Op == token.AND {
+					if id, ok := unparen(s.X).(*ast.Ident); ok {
+						bad[info.ObjectOf(id)] = true
+					}
+				}
+			}
+			return true
+		})
+	}
+	tbl := map[types.Object]ast.Expr{}
+	for o, ds := range defs {
+		if len(ds) == 1 && !bad[o] {
+			tbl[o] = ds[0]
+		}
+	}
+	aliasTables[info] = tbl
+}
+
+// isAccessPath: identifier/selector chain rooted at a variable, with at least one field selection
+// (a plain `a := b` copy of another local is not treated as an alias).
+func isAccessPath(info *types.Info, e ast.Expr) bool {
+	e = unparen(e)
+	n := 0
+	for {
+		switch t := e.(type) {
+		case *ast.SelectorExpr:
+			if _, ok := info.Selections[t]; !ok {
+				return false
+			}
+			n++
+			e = t.X
+		case *ast.StarExpr:
+			e = t.X
+		case *ast.ParenExpr:
+			e = t.X
+		case *ast.Ident:
+			_, isVar := info.ObjectOf(t).(*types.Var)
+			return isVar && n > 0
+		default:
+			return false
+		}
+	}
+}
+
+func localAliasOf(info *types.Info, id *ast.Ident) ast.Expr {
+	tbl := aliasTables[info]
+	if tbl == nil {
+		return nil
+	}
+	return tbl[info.ObjectOf(id)]
+}
+
+// lhsPath is canonPath for an assignment target: plain identifiers (locals being defined or
+// assigned) are never resolved through aliases and yield "".
+func lhsPath(info *types.Info, e ast.Expr) string {
+	if _, ok := unparen(e).(*ast.Ident); ok {
+		return ""
+	}
+	return canonPath(info, e)
 }
